@@ -84,7 +84,7 @@ func runCase(c Case) *ev.Verdict {
 	var ops *reconciler.ReconcileOps
 	var err error
 	if p := l1.Protect(func() { ops, err = rec.Reconcile(context.Background(), &id) }); p != "" {
-		v.Fail("C15/panic:"+l1.TopFrame(p), "Reconcile panicked: %s", p)
+		v.Fail(l1.Sig("C15", p), "Reconcile panicked: %s", p)
 		return v
 	}
 	if err != nil {
@@ -127,7 +127,7 @@ func runCase(c Case) *ev.Verdict {
 					oks, fails, err = target.AddEntry(op.GetNetworkInstance(), op)
 				}
 			}); p != "" {
-				v.Fail("C15/panic:"+l1.TopFrame(p), "applying %s op %d panicked: %s", ph.name, op.GetId(), p)
+				v.Fail(l1.Sig("C15", p), "applying %s op %d panicked: %s", ph.name, op.GetId(), p)
 				return v
 			}
 			k, _ := model.KeyOf(op.GetNetworkInstance(), op)
